@@ -1,8 +1,11 @@
 /-
-C05 — lemmas for ModelPpDiv.lean (ppDiv / ppMod): the two shortcut branches.
+C05 — lemmas for ModelPpDiv.lean (ppDiv / ppMod): shortcut branches, tables `_MUL_PRE_S4` /
+`_DIV_PRE_S4`, the trial quotient `_DIV_DIV_S4` (nibble-loop invariant), the digit loop
+(uses PpMul.ppAddMulW_spec), normalisation, and the final `ppDiv_ok` / `ppMod_ok`.
 -/
 import Bee2V.C05.ModelPpDiv
 import Bee2V.C05.LemmasPpRed
+import Bee2V.C05.LemmasPpMul
 namespace Bee2V.C05.PpDiv
 open Bee2V.C05 Bee2V.C05.Spec Bee2V.C05.Pp Bee2V.C05.PpRed
 
@@ -127,5 +130,679 @@ theorem mulPreS4_eq {w a : Nat} (ha : a < 2 ^ w) :
   have h15 : mt w a 15 = mt w a 14 ^^^ a := o 7
   unfold mulPreS4
   rw [h15, h14, h13, h12, h11, h10, h9, h8, h7, h6, h5, h4, h3, h2, h1, h0]
+
+/-! ## the trial quotient `_DIV_DIV_S4` -/
+
+/-- high word of `q·(x^w + t)`: `q ^ hi(q·t)` -/
+def Gq (w t q : Nat) : Nat := q ^^^ clmul q t / 2 ^ w
+
+theorem Gq_zero (w t : Nat) : Gq w t 0 = 0 := by simp [Gq, zero_clmul]
+
+theorem Gq_xor (w t x y : Nat) : Gq w t (x ^^^ y) = Gq w t x ^^^ Gq w t y := by
+  unfold Gq
+  rw [xor_clmul, Nat.xor_div_two_pow, xor4_swap]
+
+theorem clmul_lt_pow {a b p r : Nat} (ha : a < 2 ^ p) (hb : b < 2 ^ r) (hp : 0 < p) (hr : 0 < r) :
+    clmul a b < 2 ^ (p + r - 1) := by
+  by_cases ha0 : a = 0
+  · subst ha0; rw [zero_clmul]; exact Nat.two_pow_pos _
+  · by_cases hb0 : b = 0
+    · subst hb0; rw [clmul_zero]; exact Nat.two_pow_pos _
+    · have h1 := (Nat.log2_lt ha0).2 ha
+      have h2 := (Nat.log2_lt hb0).2 hb
+      have hne := clmul_ne_zero ha0 hb0
+      have hl := log2_clmul ha0 hb0
+      exact (Nat.log2_lt hne).1 (by omega)
+
+/-- `G(c·x^e)` for a nibble c: the part that cancels the leading nibble and the part xored into hi -/
+theorem Gq_nibble {w t c e : Nat} (he : e ≤ w) :
+    Gq w t (c <<< e) = (c ^^^ clmul c t / 2 ^ w) <<< e ^^^ (clmul c t % 2 ^ w) / 2 ^ (w - e) := by
+  unfold Gq
+  have hpow : 2 ^ w = 2 ^ (w - e) * 2 ^ e := by rw [← Nat.pow_add]; congr 1; omega
+  have h1 : clmul (c <<< e) t / 2 ^ w = clmul c t / 2 ^ (w - e) := by
+    rw [shiftLeft_clmul, Nat.shiftLeft_eq, hpow, Nat.mul_div_mul_right _ _ (Nat.two_pow_pos e)]
+  have hL : clmul c t % 2 ^ w / 2 ^ (w - e) < 2 ^ e := by
+    apply Nat.div_lt_of_lt_mul
+    rw [← hpow]; exact Nat.mod_lt _ (Nat.two_pow_pos w)
+  have h2 : clmul c t / 2 ^ (w - e) = (clmul c t / 2 ^ w) <<< e ^^^ clmul c t % 2 ^ w / 2 ^ (w - e) := by
+    rw [← add_shl_eq_xor hL]
+    conv => lhs; rw [← Nat.div_add_mod (clmul c t) (2 ^ w)]
+    rw [hpow, Nat.mul_assoc, Nat.mul_add_div (Nat.two_pow_pos _), ← hpow]
+  rw [h1, h2, Nat.shiftLeft_xor_distrib, Nat.xor_assoc]
+
+
+/-- `_DIV_PRE_S4` as a function of the three shifted copies of the top word it reads -/
+def divPre3 (g1 g2 g3 : Nat) : List Nat :=
+  let t2 := [0, 1]
+  let t4 := t2 ++ (List.range 2).map (fun j => 2 ^^^ t2.getD (j ^^^ g1) 0)
+  let t8 := t4 ++ (List.range 4).map (fun j => 4 ^^^ t4.getD (j ^^^ g2) 0)
+  t8 ++ (List.range 8).map (fun j => 8 ^^^ t8.getD (j ^^^ g3) 0)
+
+theorem divPreS4_eq (w a : Nat) :
+    divPreS4 w a = divPre3 (a / 2 ^ (w - 1)) (a / 2 ^ (w - 2)) (a / 2 ^ (w - 3)) := rfl
+
+/-- the finite core: for every value u of the top three bits, table entry j is the nibble c with
+    `c ^ hi(c·u) = j` -/
+theorem divPre3_ok : ∀ u, u < 8 → ∀ j, j < 16 →
+    (divPre3 (u / 4) (u / 2) u).getD j 0 < 16
+    ∧ (divPre3 (u / 4) (u / 2) u).getD j 0 ^^^ clmul ((divPre3 (u / 4) (u / 2) u).getD j 0) u / 8 = j := by
+  decide
+
+/-- only the top three bits of t matter for the high part of `c·t`, c a nibble -/
+theorem hi_clmul_nibble {w t c : Nat} (hw : 4 ≤ w) (hc : c < 16) :
+    clmul c t / 2 ^ w = clmul c (t / 2 ^ (w - 3)) / 8 := by
+  have hpow : 2 ^ w = 2 ^ (w - 3) * 8 := by
+    rw [show (8 : Nat) = 2 ^ 3 by rfl, ← Nat.pow_add]; congr 1; omega
+  have htl : t % 2 ^ (w - 3) < 2 ^ (w - 3) := Nat.mod_lt _ (Nat.two_pow_pos _)
+  have hdec : t = (t / 2 ^ (w - 3)) <<< (w - 3) ^^^ t % 2 ^ (w - 3) := by
+    rw [← add_shl_eq_xor htl, Nat.div_add_mod]
+  have hlow : clmul c (t % 2 ^ (w - 3)) < 2 ^ w := by
+    have := clmul_lt_pow (p := 4) (r := w - 3) (by simpa using hc) htl (by omega) (by omega)
+    rwa [show 4 + (w - 3) - 1 = w by omega] at this
+  conv => lhs; rw [hdec]
+  rw [clmul_xor, clmul_shiftLeft, Nat.xor_div_two_pow, Nat.div_eq_of_lt hlow, Nat.xor_zero,
+    Nat.shiftLeft_eq, hpow, Nat.mul_comm (clmul c _) (2 ^ (w - 3)),
+    Nat.mul_div_mul_left _ _ (Nat.two_pow_pos _)]
+
+/-- table `_DIV_PRE_S4(w1, t)`: entry j is the quotient nibble for the leading nibble j -/
+theorem divPreS4_ok {w t j : Nat} (hw : 4 ≤ w) (ht : t < 2 ^ w) (hj : j < 16) :
+    (divPreS4 w t).getD j 0 < 16
+    ∧ (divPreS4 w t).getD j 0 ^^^ clmul ((divPreS4 w t).getD j 0) t / 2 ^ w = j := by
+  have hu : t / 2 ^ (w - 3) < 8 := by
+    apply Nat.div_lt_of_lt_mul
+    rw [show (8 : Nat) = 2 ^ 3 by rfl, ← Nat.pow_add, show w - 3 + 3 = w by omega]; exact ht
+  have e2 : t / 2 ^ (w - 2) = t / 2 ^ (w - 3) / 2 := by
+    rw [Nat.div_div_eq_div_mul, ← Nat.pow_succ]; congr 2; omega
+  have e1 : t / 2 ^ (w - 1) = t / 2 ^ (w - 3) / 4 := by
+    rw [Nat.div_div_eq_div_mul, show (4 : Nat) = 2 ^ 2 by rfl, ← Nat.pow_add]; congr 2; omega
+  rw [divPreS4_eq, e1, e2]
+  obtain ⟨h1, h2⟩ := divPre3_ok _ hu j hj
+  refine ⟨h1, ?_⟩
+  rw [hi_clmul_nibble hw h1]
+  exact h2
+
+
+theorem mulPreS4_getD {w t c : Nat} (ht : t < 2 ^ w) (hc : c < 16) :
+    (mulPreS4 w t).getD c 0 = clmul c t % 2 ^ w := by
+  have h : mulPreS4 w t = (List.range 16).map (fun j => clmul j t % 2 ^ w) := by
+    rw [mulPreS4_eq ht]; rfl
+  rw [h, List.getD_eq_getElem?_getD, List.getElem?_map, List.getElem?_range hc]
+  rfl
+
+/-- state of the nibble loop before step s: q holds s nibbles, and x (= hi after the pending
+    update) agrees below bit w − 4s with what is still to be cancelled -/
+def NibInv (w t hi0 s q x : Nat) : Prop :=
+  q < 2 ^ (4 * s) ∧ x % 2 ^ (w - 4 * s) = hi0 ^^^ Gq w t (q <<< (w - 4 * s))
+
+theorem nibStep {w t hi0 s q x : Nat} (hw4 : 4 ≤ w) (ht : t < 2 ^ w) (hs : 4 * (s + 1) ≤ w)
+    (h : NibInv w t hi0 s q x) :
+    let c := (divPreS4 w t).getD (wshr x (w - 4 * (s + 1)) &&& 15) 0
+    (wshl w q 4 ^^^ c) &&& 15 = c
+    ∧ NibInv w t hi0 (s + 1) (wshl w q 4 ^^^ c) (x ^^^ wshr ((mulPreS4 w t).getD c 0) (4 * (s + 1))) := by
+  intro c
+  obtain ⟨hq, hx⟩ := h
+  have h15 : ∀ y : Nat, y &&& 15 = y % 16 := fun y => Nat.and_two_pow_sub_one_eq_mod y 4
+  have hj : wshr x (w - 4 * (s + 1)) &&& 15 < 16 := by rw [h15]; exact Nat.mod_lt _ (by decide)
+  obtain ⟨hc16, hcj⟩ := divPreS4_ok hw4 ht hj
+  have hw2 := mulPreS4_getD (w := w) ht hc16
+  -- q << 4 is exact
+  have hq16 : q * 2 ^ 4 < 2 ^ w := by
+    have : q * 2 ^ 4 < 2 ^ (4 * s) * 2 ^ 4 := Nat.mul_lt_mul_of_pos_right hq (by decide)
+    rw [← Nat.pow_add] at this
+    exact Nat.lt_of_lt_of_le this (Nat.pow_le_pow_right (by omega) (by omega))
+  have hshl : wshl w q 4 = q <<< 4 := by
+    show q * 2 ^ 4 % 2 ^ w = _
+    rw [Nat.mod_eq_of_lt hq16, Nat.shiftLeft_eq]
+  have hc4 : c < 2 ^ 4 := hc16
+  refine ⟨?_, ?_, ?_⟩
+  · rw [h15, hshl, Nat.shiftLeft_eq, show (16 : Nat) = 2 ^ 4 by rfl, Nat.xor_mod_two_pow,
+      Nat.mul_mod_left, Nat.zero_xor, Nat.mod_eq_of_lt hc4]
+  · rw [hshl, show 4 * (s + 1) = 4 * s + 4 by omega]
+    apply Nat.xor_lt_two_pow
+    · rw [Nat.shiftLeft_eq]
+      have := Nat.mul_lt_mul_of_pos_right hq (Nat.two_pow_pos 4)
+      rwa [← Nat.pow_add] at this
+    · exact Nat.lt_of_lt_of_le hc4 (Nat.pow_le_pow_right (by omega) (by omega))
+  · -- the congruence
+    have he : w - 4 * s = (w - 4 * (s + 1)) + 4 := by omega
+    rw [he] at hx
+    have hle : w - 4 * (s + 1) ≤ w := Nat.sub_le _ _
+    have hsplit : (wshl w q 4 ^^^ c) <<< (w - 4 * (s + 1))
+        = q <<< (w - 4 * (s + 1) + 4) ^^^ c <<< (w - 4 * (s + 1)) := by
+      rw [hshl, Nat.shiftLeft_xor_distrib, ← Nat.shiftLeft_add, Nat.add_comm 4]
+    rw [hsplit, Gq_xor, Gq_nibble hle, ← Nat.xor_assoc, ← hx, hcj, hw2,
+      show w - (w - 4 * (s + 1)) = 4 * (s + 1) by omega]
+    -- x % 2^(e+4) = j <<< e ^^^ x % 2^e
+    have hY : clmul c t % 2 ^ w / 2 ^ (4 * (s + 1)) < 2 ^ (w - 4 * (s + 1)) := by
+      apply Nat.div_lt_of_lt_mul
+      rw [← Nat.pow_add, show 4 * (s + 1) + (w - 4 * (s + 1)) = w by omega]
+      exact Nat.mod_lt _ (Nat.two_pow_pos w)
+    have hxd : x % 2 ^ (w - 4 * (s + 1) + 4)
+        = (wshr x (w - 4 * (s + 1)) &&& 15) <<< (w - 4 * (s + 1)) ^^^ x % 2 ^ (w - 4 * (s + 1)) := by
+      rw [← add_shl_eq_xor (Nat.mod_lt _ (Nat.two_pow_pos _)), h15]
+      show _ = 2 ^ (w - 4 * (s + 1)) * (x / 2 ^ (w - 4 * (s + 1)) % 16) + _
+      rw [show (16 : Nat) = 2 ^ 4 by rfl, ← Nat.mod_mul_right_div_self, ← Nat.pow_add]
+      have hdvd : 2 ^ (w - 4 * (s + 1)) ∣ 2 ^ (w - 4 * (s + 1) + 4) := Nat.pow_dvd_pow 2 (by omega)
+      conv => rhs; rhs; rw [← Nat.mod_mod_of_dvd x hdvd]
+      rw [Nat.div_add_mod]
+    show (x ^^^ clmul c t % 2 ^ w / 2 ^ (4 * (s + 1))) % 2 ^ (w - 4 * (s + 1)) = _
+    rw [Nat.xor_mod_two_pow, Nat.mod_eq_of_lt hY, hxd]
+    generalize clmul c t % 2 ^ w / 2 ^ (4 * (s + 1)) = Y
+    generalize x % 2 ^ (w - 4 * (s + 1)) = X
+    generalize (wshr x (w - 4 * (s + 1)) &&& 15) <<< (w - 4 * (s + 1)) = J
+    apply Nat.eq_of_testBit_eq
+    intro i
+    simp only [Nat.testBit_xor]
+    cases Y.testBit i <;> cases X.testBit i <;> cases J.testBit i <;> rfl
+
+theorem divDivS4Loop_ok {w t hi0 : Nat} (hw4 : 4 ≤ w) (ht : t < 2 ^ w) :
+    ∀ cnt s hi q, 4 * (s + cnt) = w →
+      NibInv w t hi0 s q (hi ^^^ wshr ((mulPreS4 w t).getD (q &&& 15) 0) (4 * s)) →
+      divDivS4Loop w (divPreS4 w t) (mulPreS4 w t) cnt s hi q < 2 ^ w
+      ∧ Gq w t (divDivS4Loop w (divPreS4 w t) (mulPreS4 w t) cnt s hi q) = hi0 := by
+  intro cnt
+  induction cnt with
+  | zero =>
+    intro s hi q hs ⟨hq, hx⟩
+    have e0 : w - 4 * s = 0 := by omega
+    rw [e0, Nat.pow_zero, Nat.mod_one, Nat.shiftLeft_zero] at hx
+    rw [show 4 * s = w by omega] at hq
+    exact ⟨hq, (xor_eq_zero_iff.1 hx.symm).symm⟩
+  | succ cnt ih =>
+    intro s hi q hs h
+    obtain ⟨n1, n2⟩ := nibStep hw4 ht (by omega) h
+    rw [divDivS4Loop]
+    apply ih (s + 1) _ _ (by omega)
+    rw [n1]
+    exact n2
+
+/-- `_DIV_DIV_S4`: the quotient word q of (hi, ·) by (1, t) — the high word of q·(x^w + t) is hi -/
+theorem divDivS4_ok {w t hi : Nat} (hw4 : 4 ≤ w) (hdvd : 4 ∣ w) (ht : t < 2 ^ w) (hhi : hi < 2 ^ w) :
+    divDivS4 w (divPreS4 w t) (mulPreS4 w t) hi < 2 ^ w
+    ∧ Gq w t (divDivS4 w (divPreS4 w t) (mulPreS4 w t) hi) = hi := by
+  have h0 : NibInv w t hi 0 0 hi := by
+    refine ⟨by simp, ?_⟩
+    rw [Nat.mul_zero, Nat.sub_zero, Nat.zero_shiftLeft, Gq_zero, Nat.xor_zero, Nat.mod_eq_of_lt hhi]
+  obtain ⟨n1, n2⟩ := nibStep hw4 ht (by omega) h0
+  have hz : wshl w 0 4 = 0 := by simp [wshl]
+  rw [hz, Nat.zero_xor] at n1 n2
+  have hlt : wshr hi (w - 4) < 16 := by
+    apply Nat.div_lt_of_lt_mul
+    rw [show (16 : Nat) = 2 ^ 4 by rfl, ← Nat.pow_add, show w - 4 + 4 = w by omega]; exact hhi
+  have hmask : wshr hi (w - 4 * (0 + 1)) &&& 15 = wshr hi (w - 4) := by
+    rw [Nat.and_two_pow_sub_one_eq_mod _ 4]; exact Nat.mod_eq_of_lt hlt
+  rw [hmask] at n1 n2
+  unfold divDivS4
+  obtain ⟨k, hk⟩ := hdvd
+  apply divDivS4Loop_ok hw4 ht (w / 4 - 1) 1 hi _ (by omega)
+  rw [n1]
+  exact n2
+
+
+/-! ## the digit loop -/
+
+theorem val_append_xor {w : Nat} {a : List Nat} (ha : Wf w a) (b : List Nat) :
+    val w (a ++ b) = val w b <<< (w * a.length) ^^^ val w a := by
+  rw [PpRed.val_append, Nat.add_comm, add_shl_eq_xor (val_lt ha)]
+
+theorem getD_eq_div {w : Nat} {d : List Nat} (hd : Wf w d) {i : Nat} (hi : i < d.length)
+    (hV : val w d < 2 ^ (w * (i + 1))) : d.getD i 0 = val w d / 2 ^ (w * i) := by
+  have h1 := val_take_succ_add (w := w) i hi
+  have h2 := val_take hd (i + 1) (by omega)
+  rw [Nat.mod_eq_of_lt hV] at h2
+  have h3 := val_lt (Wf_take hd i)
+  rw [List.length_take, Nat.min_eq_left (by omega)] at h3
+  rw [← h2, h1, Nat.add_comm, Nat.mul_add_div (Nat.two_pow_pos _), Nat.div_eq_of_lt h3, Nat.add_zero]
+
+/-- the high word of `q · divisor` only depends on the top word of the divisor -/
+theorem hi_clmul_top {w : Nat} {dv : List Nat} (hdv : Wf w dv) {m : Nat} (hm : dv.length = m) (hm1 : 1 ≤ m)
+    (hw : 0 < w) {q : Nat} (hq : q < 2 ^ w) :
+    clmul q (val w dv) / 2 ^ (w * m) = clmul q (dv.getD (m - 1) 0) / 2 ^ w := by
+  have h1 := val_take_succ_add (w := w) (a := dv) (m - 1) (by omega)
+  rw [show m - 1 + 1 = m by omega, ← hm, List.take_length, hm] at h1
+  have h3 := val_lt (Wf_take hdv (m - 1))
+  rw [List.length_take, Nat.min_eq_left (by omega)] at h3
+  have hdec : val w dv = (dv.getD (m - 1) 0) <<< (w * (m - 1)) ^^^ val w (dv.take (m - 1)) := by
+    rw [h1, Nat.add_comm, add_shl_eq_xor h3]
+  have hlow : clmul q (val w (dv.take (m - 1))) < 2 ^ (w * m) := by
+    by_cases hm2 : m = 1
+    · subst hm2
+      simp only [Nat.sub_self, List.take_zero, val_nil, clmul_zero]
+      exact Nat.two_pow_pos _
+    · have hpos : 0 < w * (m - 1) := Nat.mul_pos hw (by omega)
+      have := clmul_lt_pow hq h3 hw hpos
+      refine Nat.lt_of_lt_of_le this (Nat.pow_le_pow_right (by omega) ?_)
+      have : w * m = w + w * (m - 1) := by
+        rw [show m = 1 + (m - 1) by omega, Nat.mul_add, Nat.mul_one]; simp
+      omega
+  have hpow : 2 ^ (w * m) = 2 ^ w * 2 ^ (w * (m - 1)) := by
+    rw [← Nat.pow_add]; congr 1
+    rw [show m = 1 + (m - 1) by omega, Nat.mul_add, Nat.mul_one]; simp
+  rw [hdec, clmul_xor, clmul_shiftLeft, Nat.xor_div_two_pow, Nat.div_eq_of_lt hlow, Nat.xor_zero,
+    Nat.shiftLeft_eq, hpow, Nat.mul_div_mul_right _ _ (Nat.two_pow_pos _)]
+
+/-- the divident after one digit step with quotient word q -/
+def digitD (w : Nat) (dv : List Nat) (k q : Nat) (d : List Nat) : List Nat :=
+  let m := dv.length
+  let r := ppAddMulW w ((d.drop k).take m) dv q
+  xorAt (xorAt (d.take k ++ r.1 ++ d.drop (k + m)) (m + k) r.2) (m + k) q
+
+theorem ppDivLoop_succ (w : Nat) (dv w1 w2 : List Nat) (k : Nat) (d : List Nat) :
+    ppDivLoop w dv w1 w2 (k + 1) d
+      = ((ppDivLoop w dv w1 w2 k (digitD w dv k (divDivS4 w w1 w2 (d.getD (dv.length + k) 0)) d)).1,
+         (ppDivLoop w dv w1 w2 k (digitD w dv k (divDivS4 w w1 w2 (d.getD (dv.length + k) 0)) d)).2
+           ++ [divDivS4 w w1 w2 (d.getD (dv.length + k) 0)]) := rfl
+
+theorem Wf_drop {w : Nat} {a : List Nat} (h : Wf w a) (n : Nat) : Wf w (a.drop n) :=
+  fun x hx => h x (List.mem_of_mem_drop hx)
+
+theorem digitD_val {w : Nat} (hw : w = 16 ∨ w = 32 ∨ w = 64) (dv d : List Nat) (k q m : Nat)
+    (hd : Wf w d) (hdv : Wf w dv) (hm : dv.length = m) (hk : m + k < d.length) (hq : q < 2 ^ w) :
+    Wf w (digitD w dv k q d) ∧ (digitD w dv k q d).length = d.length
+    ∧ val w (digitD w dv k q d)
+        = val w d ^^^ (clmul q (2 ^ (w * m) ^^^ val w dv)) <<< (w * k) := by
+  have hwin : Wf w ((d.drop k).take m) := Wf_take (Wf_drop hd k) m
+  have hwl : ((d.drop k).take m).length = m := by
+    rw [List.length_take, List.length_drop]; omega
+  obtain ⟨s1, s2, s3, s4⟩ := PpMul.ppAddMulW_spec w (PpMul.Mul1OK_of_width hw) ((d.drop k).take m) dv q
+    hwin hdv (by rw [hwl, hm]) hq
+  rw [hwl] at s4
+  have hsplit : d = d.take k ++ (d.drop k).take m ++ d.drop (k + m) := by
+    rw [List.append_assoc, ← List.drop_drop, List.take_append_drop, List.take_append_drop]
+  have hT : Wf w (d.take k) := Wf_take hd k
+  have hTl : (d.take k).length = k := by rw [List.length_take]; omega
+  have hWf1 : Wf w (d.take k ++ (ppAddMulW w ((d.drop k).take m) dv q).1) := Wf_append.2 ⟨hT, s3⟩
+  have hWf1' : Wf w (d.take k ++ (d.drop k).take m) := Wf_append.2 ⟨hT, hwin⟩
+  have hWfd1 : Wf w (d.take k ++ (ppAddMulW w ((d.drop k).take m) dv q).1 ++ d.drop (k + m)) :=
+    Wf_append.2 ⟨hWf1, Wf_drop hd _⟩
+  have hlen1 : (d.take k ++ (ppAddMulW w ((d.drop k).take m) dv q).1 ++ d.drop (k + m)).length
+      = d.length := by
+    rw [List.length_append, List.length_append, hTl, s4, List.length_drop]; omega
+  obtain ⟨f1, f2, f3⟩ := val_xorAt _ (m + k) (ppAddMulW w ((d.drop k).take m) dv q).2 hWfd1
+    (by omega) s2
+  obtain ⟨g1, g2, g3⟩ := val_xorAt _ (m + k) q f1 (by omega) hq
+  have hdef : digitD w dv k q d
+      = xorAt (xorAt (d.take k ++ (ppAddMulW w ((d.drop k).take m) dv q).1 ++ d.drop (k + m)) (m + k)
+          (ppAddMulW w ((d.drop k).take m) dv q).2) (m + k) q := by
+    unfold digitD; rw [hm]
+  rw [hdef]
+  refine ⟨g1, by omega, ?_⟩
+  -- values
+  have hv1 : val w (d.take k ++ (ppAddMulW w ((d.drop k).take m) dv q).1 ++ d.drop (k + m))
+      = val w (d.drop (k + m)) <<< (w * (k + m))
+        ^^^ (val w (ppAddMulW w ((d.drop k).take m) dv q).1 <<< (w * k) ^^^ val w (d.take k)) := by
+    rw [val_append_xor hWf1, val_append_xor hT, List.length_append, hTl, s4]
+  have hv0 : val w d = val w (d.drop (k + m)) <<< (w * (k + m))
+        ^^^ (val w ((d.drop k).take m) <<< (w * k) ^^^ val w (d.take k)) := by
+    conv => lhs; rw [hsplit]
+    rw [val_append_xor hWf1', val_append_xor hT, List.length_append, hTl, hwl]
+  have hE : (ppAddMulW w ((d.drop k).take m) dv q).2 <<< (w * m)
+      ^^^ val w (ppAddMulW w ((d.drop k).take m) dv q).1
+      = val w ((d.drop k).take m) ^^^ clmul (val w dv) q := by
+    rw [← s1, val_append_xor s3, s4, val_cons, val_nil]; simp
+  have hE' : val w (ppAddMulW w ((d.drop k).take m) dv q).1
+      = (val w ((d.drop k).take m) ^^^ clmul (val w dv) q)
+        ^^^ (ppAddMulW w ((d.drop k).take m) dv q).2 <<< (w * m) := by
+    rw [← hE, Nat.xor_comm (_ <<< _), xor_xor_cancel]
+  rw [g3, f3, hv1, hv0, hE', clmul_xor, clmul_two_pow, clmul_comm (val w dv) q,
+    Nat.shiftLeft_xor_distrib, Nat.shiftLeft_xor_distrib, Nat.shiftLeft_xor_distrib,
+    ← Nat.shiftLeft_add, ← Nat.shiftLeft_add, show w * m + w * k = w * (m + k) by rw [Nat.mul_add]]
+  generalize val w (d.drop (k + m)) <<< (w * (k + m)) = R
+  generalize val w ((d.drop k).take m) <<< (w * k) = W
+  generalize clmul q (val w dv) <<< (w * k) = C
+  generalize (ppAddMulW w ((d.drop k).take m) dv q).2 <<< (w * (m + k)) = R2
+  generalize val w (d.take k) = T
+  generalize q <<< (w * (m + k)) = Q
+  apply Nat.eq_of_testBit_eq
+  intro i
+  simp only [Nat.testBit_xor]
+  cases R.testBit i <;> cases W.testBit i <;> cases C.testBit i <;> cases R2.testBit i <;>
+    cases T.testBit i <;> cases Q.testBit i <;> rfl
+
+theorem xor_rot3 (A R X : Nat) : (A ^^^ R) ^^^ X = (X ^^^ A) ^^^ R := by
+  apply Nat.eq_of_testBit_eq
+  intro i
+  simp only [Nat.testBit_xor]
+  cases A.testBit i <;> cases R.testBit i <;> cases X.testBit i <;> rfl
+
+theorem width_facts {w : Nat} (hw : w = 16 ∨ w = 32 ∨ w = 64) : 4 ≤ w ∧ 4 ∣ w ∧ 0 < w := by
+  rcases hw with rfl | rfl | rfl <;> exact ⟨by decide, by decide, by decide⟩
+
+/-- with the trial quotient of `_DIV_DIV_S4` the top word of the divident is cancelled -/
+theorem digitD_lt {w : Nat} (hw : w = 16 ∨ w = 32 ∨ w = 64) (dv d : List Nat) (k m : Nat)
+    (hd : Wf w d) (hdv : Wf w dv) (hm : dv.length = m) (hm1 : 1 ≤ m) (hk : m + k < d.length)
+    (hV : val w d < 2 ^ (w * (m + k + 1))) :
+    divDivS4 w (divPreS4 w (dv.getD (m - 1) 0)) (mulPreS4 w (dv.getD (m - 1) 0)) (d.getD (m + k) 0) < 2 ^ w
+    ∧ val w (digitD w dv k (divDivS4 w (divPreS4 w (dv.getD (m - 1) 0)) (mulPreS4 w (dv.getD (m - 1) 0))
+        (d.getD (m + k) 0)) d) < 2 ^ (w * (m + k)) := by
+  obtain ⟨hw4, hdvd, hw0⟩ := width_facts hw
+  have ht := getD_lt hdv (m - 1)
+  have hhi := getD_lt hd (m + k)
+  obtain ⟨hq, hG⟩ := divDivS4_ok hw4 hdvd ht hhi
+  refine ⟨hq, ?_⟩
+  obtain ⟨_, _, g3⟩ := digitD_val hw dv d k _ m hd hdv hm hk hq
+  rw [g3]
+  generalize divDivS4 w (divPreS4 w (dv.getD (m - 1) 0)) (mulPreS4 w (dv.getD (m - 1) 0))
+    (d.getD (m + k) 0) = q at hq hG ⊢
+  have hhiV := getD_eq_div hd hk hV
+  -- the quotient of the new value by x^(w(m+k)) vanishes
+  have hdiv : (val w d ^^^ (clmul q (2 ^ (w * m) ^^^ val w dv)) <<< (w * k)) / 2 ^ (w * (m + k)) = 0 := by
+    have hpow : 2 ^ (w * (m + k)) = 2 ^ (w * m) * 2 ^ (w * k) := by rw [Nat.mul_add, Nat.pow_add]
+    rw [Nat.xor_div_two_pow, ← hhiV, Nat.shiftLeft_eq, hpow,
+      Nat.mul_div_mul_right _ _ (Nat.two_pow_pos _), clmul_xor, clmul_two_pow, Nat.xor_div_two_pow,
+      Nat.shiftLeft_eq, Nat.mul_div_cancel _ (Nat.two_pow_pos _), hi_clmul_top hdv hm hm1 hw0 hq]
+    have : q ^^^ clmul q (dv.getD (m - 1) 0) / 2 ^ w = d.getD (m + k) 0 := hG
+    rw [this, Nat.xor_self]
+  rcases (Nat.div_eq_zero_iff).1 hdiv with h | h
+  · exact absurd h (Nat.pos_iff_ne_zero.1 (Nat.two_pow_pos _))
+  · exact h
+
+theorem ppDivLoop_ok {w : Nat} (hw : w = 16 ∨ w = 32 ∨ w = 64) (dv : List Nat) (m L : Nat)
+    (hdv : Wf w dv) (hm : dv.length = m) (hm1 : 1 ≤ m) :
+    ∀ (K : Nat) (d : List Nat), Wf w d → d.length = L → m + K ≤ L → val w d < 2 ^ (w * (m + K)) →
+      Wf w (ppDivLoop w dv (divPreS4 w (dv.getD (m - 1) 0)) (mulPreS4 w (dv.getD (m - 1) 0)) K d).1
+      ∧ (ppDivLoop w dv (divPreS4 w (dv.getD (m - 1) 0)) (mulPreS4 w (dv.getD (m - 1) 0)) K d).1.length = L
+      ∧ Wf w (ppDivLoop w dv (divPreS4 w (dv.getD (m - 1) 0)) (mulPreS4 w (dv.getD (m - 1) 0)) K d).2
+      ∧ (ppDivLoop w dv (divPreS4 w (dv.getD (m - 1) 0)) (mulPreS4 w (dv.getD (m - 1) 0)) K d).2.length = K
+      ∧ val w (ppDivLoop w dv (divPreS4 w (dv.getD (m - 1) 0)) (mulPreS4 w (dv.getD (m - 1) 0)) K d).1
+          < 2 ^ (w * m)
+      ∧ val w d = clmul (val w (ppDivLoop w dv (divPreS4 w (dv.getD (m - 1) 0))
+            (mulPreS4 w (dv.getD (m - 1) 0)) K d).2) (2 ^ (w * m) ^^^ val w dv)
+          ^^^ val w (ppDivLoop w dv (divPreS4 w (dv.getD (m - 1) 0)) (mulPreS4 w (dv.getD (m - 1) 0)) K d).1 := by
+  intro K
+  induction K with
+  | zero =>
+    intro d hd hl _ hV
+    simp only [ppDivLoop, val_nil, zero_clmul, Nat.zero_xor, List.length_nil, true_and]
+    exact ⟨hd, hl, Wf_nil w, by simpa using hV⟩
+  | succ k ih =>
+    intro d hd hl hle hV
+    have hk : m + k < d.length := by omega
+    obtain ⟨hq, hlt⟩ := digitD_lt hw dv d k m hd hdv hm hm1 hk (by rw [show m + k + 1 = m + (k + 1) by omega]; exact hV)
+    obtain ⟨g1, g2, g3⟩ := digitD_val hw dv d k _ m hd hdv hm hk hq
+    obtain ⟨i1, i2, i3, i4, i5, i6⟩ := ih _ g1 (by omega) (by omega) hlt
+    rw [ppDivLoop_succ, hm]
+    refine ⟨i1, i2, Wf_append.2 ⟨i3, Wf_cons.2 ⟨hq, Wf_nil w⟩⟩, by rw [List.length_append, i4]; rfl, i5, ?_⟩
+    simp only []
+    rw [val_append_xor i3, i4, val_cons, val_nil, Nat.mul_zero, Nat.add_zero, xor_clmul, shiftLeft_clmul]
+    have hv : val w d = val w (digitD w dv k (divDivS4 w (divPreS4 w (dv.getD (m - 1) 0))
+        (mulPreS4 w (dv.getD (m - 1) 0)) (d.getD (m + k) 0)) d)
+        ^^^ (clmul (divDivS4 w (divPreS4 w (dv.getD (m - 1) 0))
+        (mulPreS4 w (dv.getD (m - 1) 0)) (d.getD (m + k) 0)) (2 ^ (w * m) ^^^ val w dv)) <<< (w * k) := by
+      rw [g3, xor_xor_cancel]
+    rw [hv, i6]
+    generalize (clmul (divDivS4 w (divPreS4 w (dv.getD (m - 1) 0))
+        (mulPreS4 w (dv.getD (m - 1) 0)) (d.getD (m + k) 0)) (2 ^ (w * m) ^^^ val w dv)) <<< (w * k) = X
+    exact xor_rot3 _ _ _
+
+
+/-! ## normalisation on word lists -/
+
+theorem val_toWords (w n v : Nat) : val w (toWords w n v) = v % 2 ^ (w * n) := by
+  induction n generalizing v with
+  | zero => simp [toWords, val, Nat.mod_one]
+  | succ n ih =>
+    rw [toWords, val_cons, ih, Nat.mul_succ, Nat.pow_add, Nat.mul_comm (2 ^ (w * n)), Nat.mod_mul]
+
+theorem log2_add_mul {x y p : Nat} (hx : x < 2 ^ p) (hy : y ≠ 0) :
+    (x + 2 ^ p * y).log2 = p + y.log2 := by
+  have h1 := Nat.log2_self_le hy
+  have h2 := @Nat.lt_log2_self y
+  have hne : x + 2 ^ p * y ≠ 0 := by
+    have : 0 < 2 ^ p * y := Nat.mul_pos (Nat.two_pow_pos p) (by omega)
+    omega
+  apply (Nat.log2_eq_iff hne).2
+  constructor
+  · rw [Nat.pow_add]
+    exact Nat.le_trans (Nat.mul_le_mul_left _ h1) (Nat.le_add_left _ _)
+  · rw [show p + y.log2 + 1 = p + (y.log2 + 1) by omega, Nat.pow_add]
+    have : 2 ^ p * (y + 1) ≤ 2 ^ p * 2 ^ (y.log2 + 1) := Nat.mul_le_mul_left _ h2
+    rw [Nat.mul_add, Nat.mul_one] at this
+    omega
+
+/-- a number with a non-zero top word: value split and degree -/
+theorem val_top {w : Nat} {b : List Nat} (hb : Wf w b) {m : Nat} (hm : b.length = m) (hm1 : 1 ≤ m) :
+    val w b = val w (b.take (m - 1)) + 2 ^ (w * (m - 1)) * b.getD (m - 1) 0
+    ∧ val w (b.take (m - 1)) < 2 ^ (w * (m - 1)) := by
+  have h1 := val_take_succ_add (w := w) (a := b) (m - 1) (by omega)
+  rw [show m - 1 + 1 = m by omega, ← hm, List.take_length, hm] at h1
+  have h3 := val_lt (Wf_take hb (m - 1))
+  rw [List.length_take, Nat.min_eq_left (by omega)] at h3
+  exact ⟨h1, h3⟩
+
+theorem log2_val_top {w : Nat} {b : List Nat} (hb : Wf w b) {m : Nat} (hm : b.length = m) (hm1 : 1 ≤ m)
+    (htop : b.getD (m - 1) 0 ≠ 0) :
+    (val w b).log2 = w * (m - 1) + (b.getD (m - 1) 0).log2 := by
+  obtain ⟨h1, h2⟩ := val_top hb hm hm1
+  rw [h1]; exact log2_add_mul h2 htop
+
+/-- the normalisation shift of ppDiv -/
+theorem shift_eq {w tb : Nat} (htb0 : tb ≠ 0) (htb : tb < 2 ^ w) :
+    (ppBitSize tb - 1) % w = tb.log2 := by
+  unfold ppBitSize
+  rw [if_neg htb0, Nat.add_sub_cancel]
+  exact Nat.mod_eq_of_lt ((Nat.log2_lt htb0).2 htb)
+
+theorem toWords_take (w n m v : Nat) (h : m ≤ n) : (toWords w n v).take m = toWords w m v := by
+  induction m generalizing n v with
+  | zero => simp [toWords]
+  | succ m ih =>
+    obtain ⟨k, rfl⟩ : ∃ k, n = k + 1 := ⟨n - 1, by omega⟩
+    simp only [toWords, List.take_succ_cons, ih k _ (by omega)]
+
+theorem pdivmod_eq_of {a b q r : Nat} (hb : b ≠ 0) (h : a = clmul q b ^^^ r) (hr : r < 2 ^ b.log2) :
+    pdivmod a b = (q, r) := by
+  obtain ⟨h1, h2⟩ := pdivmod_spec a b hb
+  obtain ⟨e1, e2⟩ := divmod_unique hb h2 hr (h1.trans h)
+  exact Prod.ext e1 e2
+
+theorem Wf_zero1 (w : Nat) : Wf w [0] := Wf_cons.2 ⟨Nat.two_pow_pos w, Wf_nil w⟩
+
+/-- the main branch of ppDiv / ppMod -/
+theorem ppDivCore_ok {w : Nat} (hw : w = 16 ∨ w = 32 ∨ w = 64) (a b : List Nat) (extra : Nat)
+    (hex : extra ≤ 1) (ha : Wf w a) (hb : Wf w b) (hnm : b.length ≤ a.length) (hm1 : 1 ≤ b.length)
+    (htop : b.getD (b.length - 1) 0 ≠ 0) (hne1 : ¬ (b.length = 1 ∧ b.getD 0 0 = 1)) :
+    val w (ppDivCore w a b extra).2 = (pdivmod (val w a) (val w b)).2
+    ∧ (ppDivCore w a b extra).2.length = b.length ∧ Wf w (ppDivCore w a b extra).2
+    ∧ (extra = 0 → val w (ppDivCore w a b extra).1 = (pdivmod (val w a) (val w b)).1
+        ∧ (ppDivCore w a b extra).1.length = a.length - b.length + 1
+        ∧ Wf w (ppDivCore w a b extra).1) := by
+  obtain ⟨hw4, hdvd, hw0⟩ := width_facts hw
+  have htb := getD_lt hb (b.length - 1)
+  have hlogb := log2_val_top hb rfl hm1 htop
+  obtain ⟨hvb, hvb2⟩ := val_top hb rfl hm1
+  have hb0 : val w b ≠ 0 := by
+    have : 0 < 2 ^ (w * (b.length - 1)) * b.getD (b.length - 1) 0 :=
+      Nat.mul_pos (Nat.two_pow_pos _) (by omega)
+    omega
+  have hlogtb : (b.getD (b.length - 1) 0).log2 < w := (Nat.log2_lt htop).2 htb
+  have hd0 : Wf w (a ++ [0]) := Wf_append.2 ⟨ha, Wf_zero1 w⟩
+  have hd0l : (a ++ [0]).length = a.length + 1 := by simp
+  have hd0v : val w (a ++ [0]) = val w a := by rw [PpRed.val_append]; simp [val]
+  have hva := val_lt ha
+  unfold ppDivCore
+  dsimp only
+  rw [shift_eq htop htb]
+  split
+  · -- shift == 0: the top word is 1
+    rename_i hs
+    have htb1 : b.getD (b.length - 1) 0 = 1 := by
+      have := (Nat.log2_lt htop).1 (by omega : (b.getD (b.length - 1) 0).log2 < 1)
+      omega
+    have hm2 : 2 ≤ b.length := by
+      by_cases h1 : b.length = 1
+      · exfalso; apply hne1; refine ⟨h1, ?_⟩; rw [h1] at htb1; exact htb1
+      · omega
+    have hdv : Wf w (b.take (b.length - 1)) := Wf_take hb _
+    have hdvl : (b.take (b.length - 1)).length = b.length - 1 := by rw [List.length_take]; omega
+    have hB : 2 ^ (w * (b.length - 1)) ^^^ val w (b.take (b.length - 1)) = val w b := by
+      rw [hvb, htb1, Nat.add_comm, add_shl_eq_xor hvb2, Nat.one_shiftLeft]
+    obtain ⟨i1, i2, i3, i4, i5, i6⟩ := ppDivLoop_ok hw (b.take (b.length - 1)) (b.length - 1)
+      (a.length + 1) hdv hdvl (by omega) (a.length - b.length + 1 + extra) (a ++ [0]) hd0 hd0l (by omega)
+      (by rw [hd0v]; exact Nat.lt_of_lt_of_le hva (Nat.pow_le_pow_right (by omega)
+            (Nat.mul_le_mul_left w (by omega))))
+    rw [show b.length - 1 - 1 = b.length - 2 by omega] at i1 i2 i3 i4 i5 i6
+    rw [hB, hd0v] at i6
+    have hlog : (val w b).log2 = w * (b.length - 1) := by rw [hlogb, htb1]; simp [Nat.log2_def]
+    have hpd := pdivmod_eq_of hb0 i6 (by rw [hlog]; exact i5)
+    rw [hpd]
+    have hrv : val w ((ppDivLoop w (b.take (b.length - 1))
+        (divPreS4 w ((b.take (b.length - 1)).getD (b.length - 2) 0))
+        (mulPreS4 w ((b.take (b.length - 1)).getD (b.length - 2) 0))
+        (a.length - b.length + 1 + extra) (a ++ [0])).1.take (b.length - 1) ++ [0])
+        = val w (ppDivLoop w (b.take (b.length - 1))
+        (divPreS4 w ((b.take (b.length - 1)).getD (b.length - 2) 0))
+        (mulPreS4 w ((b.take (b.length - 1)).getD (b.length - 2) 0))
+        (a.length - b.length + 1 + extra) (a ++ [0])).1 := by
+      rw [PpRed.val_append, val_take i1 _ (by omega), Nat.mod_eq_of_lt i5]; simp [val]
+    refine ⟨hrv, ?_, Wf_append.2 ⟨Wf_take i1 _, Wf_zero1 w⟩, ?_⟩
+    · rw [List.length_append, List.length_take, i2]; simp; omega
+    · intro he
+      subst he
+      dsimp only
+      rw [List.take_of_length_le (by rw [i4])]
+      exact ⟨rfl, by rw [i4], i3⟩
+  · -- shift != 0
+    rename_i hs
+    have hsh1 : w - (b.getD (b.length - 1) 0).log2 ≤ w := Nat.sub_le _ _
+    have hwm : w * b.length = w * (b.length - 1) + w := by
+      conv => lhs; rw [show b.length = (b.length - 1) + 1 by omega, Nat.mul_succ]
+    generalize hshd : w - (b.getD (b.length - 1) 0).log2 = sh at hsh1 ⊢
+    -- the normalised divisor has its top bit at position w·m
+    have hXne : val w b * 2 ^ sh ≠ 0 := Nat.mul_ne_zero hb0 (Nat.pos_iff_ne_zero.1 (Nat.two_pow_pos _))
+    have hXlog : (val w b * 2 ^ sh).log2 = w * b.length := by
+      rw [log2_mul_two_pow hb0, hlogb]; omega
+    obtain ⟨hXlo, hXhi⟩ := (Nat.log2_eq_iff hXne).1 hXlog
+    have hXdiv : val w b * 2 ^ sh / 2 ^ (w * b.length) = 1 :=
+      Nat.div_eq_of_lt_le (by omega) (by rw [Nat.pow_succ] at hXhi; omega)
+    have hdvv := val_toWords w b.length (val w b * 2 ^ sh)
+    have hB : 2 ^ (w * b.length) ^^^ val w (toWords w b.length (val w b * 2 ^ sh)) = val w b * 2 ^ sh := by
+      have h1 := add_shl_eq_xor (a := 1) (b := val w b * 2 ^ sh % 2 ^ (w * b.length)) (i := w * b.length)
+        (Nat.mod_lt _ (Nat.two_pow_pos _))
+      rw [Nat.one_shiftLeft, Nat.mul_one] at h1
+      rw [hdvv, ← h1]
+      conv => rhs; rw [← Nat.div_add_mod (val w b * 2 ^ sh) (2 ^ (w * b.length)), hXdiv, Nat.mul_one]
+    have hdv' : val w (toWords w (a.length + 1) (val w (a ++ [0]) * 2 ^ sh)) = val w a * 2 ^ sh := by
+      rw [val_toWords, hd0v]
+      apply Nat.mod_eq_of_lt
+      have h1 : val w a * 2 ^ sh < 2 ^ (w * a.length) * 2 ^ sh :=
+        Nat.mul_lt_mul_of_pos_right hva (Nat.two_pow_pos _)
+      have h2 : 2 ^ (w * a.length) * 2 ^ sh ≤ 2 ^ (w * a.length) * 2 ^ w :=
+        Nat.mul_le_mul_left _ (Nat.pow_le_pow_right (by omega) hsh1)
+      rw [Nat.mul_succ, Nat.pow_add]
+      omega
+    obtain ⟨i1, i2, i3, i4, i5, i6⟩ := ppDivLoop_ok hw (toWords w b.length (val w b * 2 ^ sh)) b.length
+      (a.length + 1) (toWords_Wf w _ _) (toWords_length w _ _) hm1 (a.length - b.length + 1)
+      (toWords w (a.length + 1) (val w (a ++ [0]) * 2 ^ sh)) (toWords_Wf w _ _) (toWords_length w _ _)
+      (by omega)
+      (by rw [show b.length + (a.length - b.length + 1) = a.length + 1 by omega]
+          have := val_lt (toWords_Wf w (a.length + 1) (val w (a ++ [0]) * 2 ^ sh))
+          rwa [toWords_length] at this)
+    rw [hB, hdv'] at i6
+    have hpd := pdivmod_eq_of hXne i6 (by rw [hXlog]; exact i5)
+    have hshift := pdivmod_shift (val w a) (val w b) sh hb0
+    rw [Nat.shiftLeft_eq, Nat.shiftLeft_eq, hpd] at hshift
+    have hq0 := congrArg Prod.fst hshift
+    have hr0 := congrArg Prod.snd hshift
+    simp only at hq0 hr0
+    have hrlt : (pdivmod (val w a) (val w b)).2 < 2 ^ (w * b.length) := by
+      refine Nat.lt_of_lt_of_le (pdivmod_spec (val w a) (val w b) hb0).2 (Nat.pow_le_pow_right (by omega) ?_)
+      rw [hlogb]; omega
+    have hrv : val w (ppDivLoop w (toWords w b.length (val w b * 2 ^ sh))
+        (divPreS4 w ((toWords w b.length (val w b * 2 ^ sh)).getD (b.length - 1) 0))
+        (mulPreS4 w ((toWords w b.length (val w b * 2 ^ sh)).getD (b.length - 1) 0))
+        (a.length - b.length + 1) (toWords w (a.length + 1) (val w (a ++ [0]) * 2 ^ sh))).1 / 2 ^ sh
+        = (pdivmod (val w a) (val w b)).2 := by
+      rw [hr0, Nat.shiftLeft_eq, Nat.mul_div_cancel _ (Nat.two_pow_pos _)]
+    rw [toWords_take w _ _ _ (by omega), hrv, val_toWords, Nat.mod_eq_of_lt hrlt]
+    refine ⟨rfl, toWords_length w _ _, toWords_Wf w _ _, fun _ => ⟨hq0, i4, i3⟩⟩
+
+
+/-! ## ppDiv / ppMod -/
+
+theorem Wf_replicate_zero (w k : Nat) : Wf w (List.replicate k 0) := by
+  intro x hx
+  rw [List.eq_of_mem_replicate hx]; exact Nat.two_pow_pos w
+
+theorem val_one_of {w : Nat} {b : List Nat} (h1 : b.length = 1) (h2 : b.getD 0 0 = 1) : val w b = 1 := by
+  match b, h1 with
+  | [x], _ => simp at h2; subst h2; simp [val]
+
+theorem pdivmod_one (x : Nat) : pdivmod x 1 = (x, 0) :=
+  pdivmod_eq_of (by decide) (by rw [clmul_one, Nat.xor_zero]) (Nat.two_pow_pos _)
+
+/-- a dividend with fewer words than the divisor takes the `deg a < deg b` shortcut -/
+theorem small_of_short {w : Nat} {a b : List Nat} (ha : Wf w a) (hb : Wf w b) (hm1 : 1 ≤ b.length)
+    (htop : b.getD (b.length - 1) 0 ≠ 0) (hlt : a.length < b.length) :
+    ppBitSize (val w a) < ppBitSize (val w b) := by
+  have hva := val_lt ha
+  have hlogb := log2_val_top hb rfl hm1 htop
+  obtain ⟨hvb, _⟩ := val_top hb rfl hm1
+  have hb0 : val w b ≠ 0 := by
+    have : 0 < 2 ^ (w * (b.length - 1)) * b.getD (b.length - 1) 0 :=
+      Nat.mul_pos (Nat.two_pow_pos _) (by omega)
+    omega
+  have hle : w * a.length ≤ w * (b.length - 1) := Nat.mul_le_mul_left w (by omega)
+  unfold ppBitSize
+  rw [if_neg hb0]
+  by_cases ha0 : val w a = 0
+  · rw [if_pos ha0]; omega
+  · rw [if_neg ha0]
+    have : (val w a).log2 < w * a.length := (Nat.log2_lt ha0).2 hva
+    omega
+
+theorem ppDiv_ok {w : Nat} (hw : w = 16 ∨ w = 32 ∨ w = 64) (a b : List Nat) (ha : Wf w a) (hb : Wf w b)
+    (hnm : b.length ≤ a.length) (hm1 : 1 ≤ b.length) (htop : b.getD (b.length - 1) 0 ≠ 0) :
+    pdivmod (val w a) (val w b) = (val w (ppDiv w a b).1, val w (ppDiv w a b).2)
+    ∧ (ppDiv w a b).1.length = a.length - b.length + 1 ∧ (ppDiv w a b).2.length = b.length
+    ∧ Wf w (ppDiv w a b).1 ∧ Wf w (ppDiv w a b).2 := by
+  by_cases hlt : ppBitSize (val w a) < ppBitSize (val w b)
+  · obtain ⟨h1, h2⟩ := ppDiv_small a b ha hb hnm hlt
+    obtain ⟨hy, hx⟩ := lt_of_bitSize_lt hlt
+    rw [h1]
+    dsimp only
+    rw [val_replicate_zero, h2, pdivmod_eq_of hy (by rw [zero_clmul, Nat.zero_xor]) hx]
+    refine ⟨rfl, by simp, by rw [List.length_take]; omega, Wf_replicate_zero w _, Wf_take ha _⟩
+  · by_cases hone : b.length = 1 ∧ b.getD 0 0 = 1
+    · have h1 : ppDiv w a b = (a, [0]) := by
+        unfold ppDiv; simp only [if_neg hlt, if_pos hone]
+      rw [h1, val_one_of hone.1 hone.2, pdivmod_one]
+      dsimp only
+      refine ⟨by simp [val], by omega, by simp [hone.1], ha, Wf_zero1 w⟩
+    · have h1 : ppDiv w a b = ppDivCore w a b 0 := by
+        unfold ppDiv; simp only [if_neg hlt, if_neg hone]
+      rw [h1]
+      obtain ⟨c1, c2, c3, c4⟩ := ppDivCore_ok hw a b 0 (by omega) ha hb hnm hm1 htop hone
+      obtain ⟨c5, c6, c7⟩ := c4 rfl
+      exact ⟨Prod.ext c5.symm c1.symm, c6, c2, c7, c3⟩
+
+theorem ppMod_ok {w : Nat} (hw : w = 16 ∨ w = 32 ∨ w = 64) (a b : List Nat) (ha : Wf w a) (hb : Wf w b)
+    (hm1 : 1 ≤ b.length) (htop : b.getD (b.length - 1) 0 ≠ 0) :
+    val w (ppMod w a b) = pmod (val w a) (val w b)
+    ∧ (ppMod w a b).length = b.length ∧ Wf w (ppMod w a b) := by
+  by_cases hlt : ppBitSize (val w a) < ppBitSize (val w b)
+  · obtain ⟨h1, h2⟩ := ppMod_small a b ha hb hlt
+    obtain ⟨hy, hx⟩ := lt_of_bitSize_lt hlt
+    refine ⟨by rw [h1, pmod_of_lt hy hx], h2, ?_⟩
+    unfold ppMod
+    simp only [if_pos hlt]
+    split
+    · exact Wf_append.2 ⟨ha, Wf_replicate_zero w _⟩
+    · exact Wf_take ha _
+  · have hnm : b.length ≤ a.length := by
+      by_cases h : b.length ≤ a.length
+      · exact h
+      · exact absurd (small_of_short ha hb hm1 htop (by omega)) hlt
+    by_cases hone : b.length = 1 ∧ b.getD 0 0 = 1
+    · have h1 : ppMod w a b = [0] := by
+        unfold ppMod; simp only [if_neg hlt, if_pos hone]
+      rw [h1, val_one_of hone.1 hone.2, pmod_one]
+      exact ⟨by simp [val], by simp [hone.1], Wf_zero1 w⟩
+    · have h1 : ppMod w a b = (ppDivCore w a b 1).2 := by
+        unfold ppMod; simp only [if_neg hlt, if_neg hone]
+      rw [h1]
+      obtain ⟨c1, c2, c3, _⟩ := ppDivCore_ok hw a b 1 (by omega) ha hb hnm hm1 htop hone
+      exact ⟨c1, c2, c3⟩
+
 
 end Bee2V.C05.PpDiv
